@@ -117,156 +117,144 @@ func (x *extractor) genExprs() {
 	api := x.pkg("internal/api")
 	irc := x.pkg("internal/ircserver")
 	put := func(k, v string) { facts[k] = v }
+	condsOf := func(evs []event) string {
+		var cs []string
+		for _, ev := range evs {
+			if ev.Kind == "if" {
+				cs = append(cs, ev.Text)
+			}
+		}
+		return strings.Join(cs, " ;; ")
+	}
 	if fd := findFunc(api, "HTTP", "handlePostMessage"); fd != nil {
-		if is := findIf(api, fd, "LastPostMessage"); is != nil {
-			put("post.dedupe.cond", exprString(api.Fset, is.Cond))
-			put("post.dedupe.body", bodyString(api, is))
+		env := newEnv(api, fd)
+		evs := env.flatten(fd.Body.List, nil, 0)
+		if i, ev := firstEvent(evs, "if", "LastPostMessage"); ev != nil {
+			put("post.dedupe.cond", ev.Text)
+			put("post.dedupe.body", bodyText(*ev))
 			before := "true"
-			for _, c := range []string{"applyMessageWait", "maybeProxyToLeader", "raftNode.State"} {
-				if pos := firstCallPos(api, fd, c); pos != token.NoPos && pos < is.Pos() {
+			for _, c := range []string{"applyMessageWait", "maybeProxyToLeader", "raftNode.State", "raftNode.Apply"} {
+				if j, _ := firstEvent(evs, "call", c); j >= 0 && j < i {
 					before = "false"
 				}
 			}
 			put("post.dedupe.first", before)
 		}
-		for k, v := range literalFields(api, fd, "robust.Message") {
+		for k, v := range litFields(newEnv(api, fd).flatten(fd.Body.List, unexportedHelper, 0), "robust.Message") {
 			put("post.msg."+k, v)
 		}
 	}
 	if fd := findFunc(api, "HTTP", "handleDeleteSession"); fd != nil {
-		for k, v := range literalFields(api, fd, "robust.Message") {
+		for k, v := range litFields(newEnv(api, fd).flatten(fd.Body.List, unexportedHelper, 0), "robust.Message") {
 			put("delete.msg."+k, v)
 		}
 	}
 	if fd := findFunc(api, "HTTP", "applyConfig"); fd != nil {
-		conds := ifConds(api, fd)
-		if len(conds) > 0 {
-			put("config.revtest", conds[0])
+		evs := newEnv(api, fd).flatten(fd.Body.List, nil, 0)
+		if _, ev := firstEvent(evs, "if", ""); ev != nil {
+			put("config.revtest", ev.Text)
 		}
-		if is := findIf(api, fd, "!="); is != nil && is.Init != nil {
-			put("config.revtest.init", stmtString(api.Fset, is.Init))
-		}
-		for k, v := range literalFields(api, fd, "robust.Message") {
+		for k, v := range litFields(newEnv(api, fd).flatten(fd.Body.List, unexportedHelper, 0), "robust.Message") {
 			put("config.msg."+k, v)
 		}
 	}
 	if fd := findFunc(api, "HTTP", "applyMessageWait"); fd != nil {
-		put("apply.conds", strings.Join(ifConds(api, fd), " ;; "))
-		idPos, errPos := token.NoPos, firstCallPos(api, fd, "f.Error")
-		ast.Inspect(fd.Body, func(n ast.Node) bool {
-			if as, ok := n.(*ast.AssignStmt); ok && len(as.Lhs) == 1 && exprString(api.Fset, as.Lhs[0]) == "msg.Id.Id" {
-				idPos = as.Pos()
+		evs := newEnv(api, fd).flatten(fd.Body.List, unexportedHelper, 0)
+		// the handler must wait for the commit itself: no goroutine, select or timer that could make it
+		// return while the entry is still in flight (a client that is told "failed" retries)
+		async := 0
+		for _, ev := range evs {
+			if ev.Kind == "go" || ev.Kind == "select" || ev.Kind == "send" || (ev.Kind == "call" && strings.HasPrefix(ev.Text, "time.After")) {
+				async++
 			}
-			return true
-		})
-		if idPos != token.NoPos && errPos != token.NoPos && errPos < idPos {
+		}
+		put("apply.async", fmt.Sprint(async))
+		wi, wev := firstEvent(evs, "if", "nil != recv.raftNode.Apply(")
+		if wev != nil {
+			put("apply.wait", wev.Text+" => "+bodyText(*wev))
+		} else {
+			put("apply.wait", "")
+		}
+		ii, _ := firstEvent(evs, "assign", "param1.Id.Id = ")
+		if wev != nil && ii > wi {
 			put("apply.idAfterErrorCheck", "true")
 		} else {
 			put("apply.idAfterErrorCheck", "false")
 		}
-		// the handler must wait for the commit itself: no goroutine, select or timer that could make it
-		// return while the entry is still in flight (a client that is told "failed" retries)
-		async := 0
-		var waits []string
-		ast.Inspect(fd.Body, func(n ast.Node) bool {
-			switch v := n.(type) {
-			case *ast.GoStmt, *ast.SelectStmt:
-				async++
-			case *ast.IfStmt:
-				if v.Init != nil && strings.Contains(stmtString(api.Fset, v.Init), "f.Error()") {
-					waits = append(waits, stmtString(api.Fset, v.Init)+" ; "+exprString(api.Fset, v.Cond)+" ; "+strings.Join(strings.Fields(stmtString(api.Fset, v.Body)), " "))
-				}
-			case *ast.CallExpr:
-				if strings.HasPrefix(exprString(api.Fset, v.Fun), "time.After") {
-					async++
-				}
-			}
-			return true
-		})
-		put("apply.async", fmt.Sprint(async))
-		put("apply.wait", strings.Join(waits, " || "))
 	}
 	if fd := findFunc(api, "HTTP", "handleGetMessages"); fd != nil {
-		if is := findIf(api, fd, "InterestingFor"); is != nil {
-			put("getmessages.filter", exprString(api.Fset, is.Cond))
-			put("getmessages.filter.body", bodyString(api, is))
+		evs := newEnv(api, fd).flatten(fd.Body.List, nil, 0)
+		if _, ev := firstEvent(evs, "if", "InterestingFor"); ev != nil {
+			put("getmessages.filter", ev.Text)
+			put("getmessages.filter.body", bodyText(*ev))
 		}
 	}
 	if fd := findFunc(irc, "IRCServer", "getSessionLocked"); fd != nil {
-		put("getsession.conds", strings.Join(ifConds(irc, fd), " ;; "))
+		put("getsession.conds", condsOf(newEnv(irc, fd).flatten(fd.Body.List, nil, 0)))
 	}
 	if fd := findFunc(irc, "IRCServer", "ExpireSessions"); fd != nil {
-		put("expire.conds", strings.Join(ifConds(irc, fd), " ;; "))
-		for k, v := range literalFields(irc, fd, "robust.Message") {
+		put("expire.conds", condsOf(newEnv(irc, fd).flatten(fd.Body.List, nil, 0)))
+		for k, v := range litFields(newEnv(irc, fd).flatten(fd.Body.List, unexportedHelper, 0), "robust.Message") {
 			put("expire.msg."+k, v)
-		}
-		for k, v := range localDefs(irc, fd) {
-			if k == "timeout" {
-				put("expire.timeout", v)
-			}
 		}
 	}
 	// the helper through which ExpireSessions reads the configured expiration (so that ConfigMu is released
 	// before sessionsMu is taken)
 	if fd := findFunc(irc, "IRCServer", "sessionExpiration"); fd != nil {
-		ast.Inspect(fd.Body, func(n ast.Node) bool {
-			if r, ok := n.(*ast.ReturnStmt); ok && len(r.Results) == 1 {
-				put("expire.timeout.helper", exprString(irc.Fset, r.Results[0]))
-			}
-			return true
-		})
+		evs := newEnv(irc, fd).flatten(fd.Body.List, nil, 0)
+		if _, ev := firstEvent(evs, "return", ""); ev != nil {
+			put("expire.timeout.helper", ev.Text)
+		}
 	}
 	// message-of-death handling in FSM.applyProto (package main)
 	if mainp := x.pkg(""); mainp != nil {
 		if fd := findFunc(mainp, "FSM", "applyProto"); fd != nil {
-			var assign, store, fatal token.Pos
-			ast.Inspect(fd.Body, func(n ast.Node) bool {
-				switch v := n.(type) {
-				case *ast.AssignStmt:
-					if len(v.Lhs) == 1 && exprString(mainp.Fset, v.Lhs[0]) == "msg.Type" && assign == token.NoPos {
-						assign = v.Pos()
-						put("death.assign", stmtString(mainp.Fset, v))
-					}
-					if len(v.Lhs) == 1 && exprString(mainp.Fset, v.Lhs[0]) == "l.Data" {
-						put("death.rewrite", stmtString(mainp.Fset, v))
-					}
-				case *ast.CallExpr:
-					f := exprString(mainp.Fset, v.Fun)
-					if strings.HasSuffix(f, "StoreLogProto") && store == token.NoPos {
-						store = v.Pos()
-						put("death.store", exprString(mainp.Fset, v))
-					}
-					if f == "glog.Fatalf" && len(v.Args) == 2 && exprString(mainp.Fset, v.Args[1]) == "r" {
-						fatal = v.Pos()
-					}
+			evs := newEnv(mainp, fd).flatten(fd.Body.List, unexportedHelper, 0)
+			ai, aev := firstEvent(evs, "assign", ".Type = robust.MessageOfDeath")
+			if aev != nil {
+				put("death.assign", aev.Text)
+			}
+			for _, ev := range evs {
+				if ev.Kind == "assign" && strings.HasPrefix(ev.Text, "param1.Data = ") {
+					put("death.rewrite", ev.Text)
+					break
 				}
-				return true
-			})
+			}
+			si, sev := firstEvent(evs, "call", "StoreLogProto(")
+			if sev != nil {
+				put("death.store", sev.Text)
+			}
+			fi := -1
+			for i, ev := range evs {
+				if ev.Kind == "call" && strings.HasPrefix(ev.Text, "glog.Fatalf(") && strings.Contains(ev.Text, "recover()") {
+					fi = i
+				}
+			}
 			order := "false"
-			if assign != token.NoPos && store != token.NoPos && fatal != token.NoPos && assign < store && store < fatal {
+			if ai >= 0 && si >= 0 && fi >= 0 && ai < si && si < fi {
 				order = "true"
 			}
 			put("death.order.mark-store-exit", order)
-			if is := findIf(mainp, fd, "MessageOfDeath"); is != nil {
-				put("death.skipguard", exprString(mainp.Fset, is.Cond)+" => "+bodyString(mainp, is))
+			if _, ev := firstEvent(evs, "if", "MessageOfDeath"); ev != nil {
+				put("death.skipguard", ev.Text+" => "+bodyText(*ev))
 			}
 		}
 		if fd := findFunc(mainp, "FSM", "applyRobustMessage"); fd != nil {
 			// first statement of the MessageOfDeath case
 			ast.Inspect(fd.Body, func(n ast.Node) bool {
 				cc, ok := n.(*ast.CaseClause)
-				if !ok || len(cc.List) != 1 {
+				if !ok || len(cc.List) != 1 || len(cc.Body) == 0 {
 					return true
+				}
+				first := ""
+				if evs := newEnv(mainp, fd).flatten(cc.Body[:1], nil, 0); len(evs) > 0 {
+					first = evs[0].Text
 				}
 				switch exprString(mainp.Fset, cc.List[0]) {
 				case "robust.MessageOfDeath":
-					if len(cc.Body) > 0 {
-						put("death.case.first", stmtString(mainp.Fset, cc.Body[0]))
-					}
+					put("death.case.first", first)
 				case "robust.IRCFromClient":
-					if len(cc.Body) > 0 {
-						put("client.case.first", stmtString(mainp.Fset, cc.Body[0])[:80])
-					}
+					put("client.case.first", first)
 				}
 				return true
 			})
